@@ -106,6 +106,8 @@ class External:
     """Reference to something outside the analysed package (``torch.zeros``, ``math.sqrt`` ...)."""
 
     def __init__(self, dotted):
+        if dotted == "numpy" or dotted.startswith("numpy."):
+            dotted = "np" + dotted[5:]
         self.dotted = dotted
 
     def __repr__(self):
